@@ -212,7 +212,8 @@ func genArgs(name string, params []schema.Type, rng *rand.Rand, n int) [][]any {
 			}
 			if name == "floatToFormattedString" {
 				vals = nil
-				for _, v := range "beEfgGxX" {
+				// every one-character text; the declared parameter type decides which of them are format specifiers
+				for _, v := range "beEfgGxXBFaAcdDhHiIkKnNoOpPqQsStTuUvVwWyYzZ%01 " {
 					vals = append(vals, string(v))
 				}
 			}
